@@ -14,6 +14,15 @@ def _run(case):
 
     C = iterkit.classes()
     p = C["Probe"](case["frames"], 3)
+    fits = case.get("fits", "yes")
+    iterkit.set_terminal()
+    pad = ExactPadding()
+    if fits == "render-too-big":
+        from term_image.geometry import Size
+
+        p.size = Size(iterkit.TERM0[0] + 3, iterkit.TERM0[1] + 2)
+    elif fits == "padding-too-big":
+        pad = ExactPadding(iterkit.TERM0[0], iterkit.TERM0[1], 1, 1)
     cache = case["cacheb"] if case["cachekind"] == "bool" else case["cachen"]
     args = {"none": None, "own": RenderArgs(C["Probe"], C["ProbeArgs"]("a1", 0)),
             "incompatible": RenderArgs(C["Other"])}[case["args"]]
@@ -21,7 +30,7 @@ def _run(case):
         if case["via"] == "iter":
             it = iter(p)
         elif case["via"] == "ctor":
-            it = RenderIterator(p, args, ExactPadding(), case["loops"], cache)
+            it = RenderIterator(p, args, pad, case["loops"], cache)
         else:
             kind = case["data"]
             if kind == "other-class":
@@ -35,10 +44,19 @@ def _run(case):
                 data = p._get_render_data_(iteration=kind != "not-iteration")
                 if kind == "finalized":
                     data.finalize()
-            it = RenderIterator._from_render_data_(p, data, args, ExactPadding(), case["loops"], cache)
+            it = RenderIterator._from_render_data_(p, data, args, pad, case["loops"], cache)
     except Exception as e:  # noqa: BLE001
         return {"verdict": type(e).__name__}
     res = {"verdict": "ok", "loop": it.loop, "cached": bool(it._cached)}
+    if fits != "yes":
+        # the oversized iterator works: its first frame has the (padded) size asked for
+        try:
+            frame = next(it)
+            want = pad.get_padded_size(p.size)
+            if tuple(frame.render_size) != tuple(want):
+                res["first_frame"] = f"render_size {tuple(frame.render_size)} != {tuple(want)}"
+        except Exception as e:  # noqa: BLE001
+            res["first_frame"] = type(e).__name__
     it.close()
     return res
 
